@@ -16,8 +16,15 @@ def Kind.typeName : Kind → String
   | .address => "Address" | .time => "Time" | .sessionId => "UTF8String" | .tbcd => "OctetString"
   | .eapPayload => "OctetString" | .framedIp => "Address" | .unmodelled => "?"
 
+/-- the published type of a kind (special constructors publish the type they derive from) -/
+def Kind.published : Kind → Kind
+  | .sessionId => .utf8String | .tbcd => .octetString | .eapPayload => .octetString | .framedIp => .address
+  | k => k
+
 structure Entry where
   name : String
+  /-- the class name read as a big-endian number (name equality on `Nat`) -/
+  nameKey : Nat
   code : Nat
   vendor : Option Nat
   /-- default flag byte set by the constructor -/
@@ -30,10 +37,10 @@ structure Entry where
 deriving DecidableEq, Repr, Inhabited
 
 structure RefEntry where
-  name : String
+  nameKey : Nat
   vendor : Option Nat
   code : Nat
-  type : String
+  type : Kind
   flags : Nat
 deriving DecidableEq, Repr
 
